@@ -287,6 +287,12 @@ func init() {
 					}
 				}
 			}
+			// no device attached: I/O encodings, with an unrelated device-less CPU writing a port in between
+			nilio := encsOf("io")
+			for _, op := range []int{0xa2, 0xa3, 0xaa, 0xab, 0xb2, 0xb3, 0xba, 0xbb} {
+				nilio = append(nilio, Enc{2, op})
+			}
+			jobs = append(jobs, stepJobs(nilio, "VC10NilIO")...)
 			// isolation sandwich with constructor-built requests (5 x 5 forms, any mode)
 			for f0 := 0; f0 <= 4; f0++ {
 				for f := 0; f <= 4; f++ {
